@@ -80,13 +80,51 @@ def seed_models():
         13: img({"Filter": Name("LZWDecode"), "DecodeParms": {"Predictor": 2, "Colors": 1, "Columns": 6, "BitsPerComponent": 8, "EarlyChange": 1}}, lzw_encode(tiff_pred_encode(gray, 1, 6))),
     }
     models["filters"] = dict(objs=s3, root=1, form="table", pack=())
+    # -- S4: the streams that extraction itself decodes (page contents, a form, a ToUnicode CMap) behind LZW, RunLength, ASCII85 and a chain
+    page = lambda k, extra=None: dict({"Type": Name("Page"), "Parent": Ref(2), "MediaBox": [0, 0, 300, 300], "Contents": Ref(10 + k), "Resources": {"Font": {"F1": Ref(5), "F2": Ref(6)},
+                                                                                                                                     "XObject": {"Fm1": Ref(20)}}}, **(extra or {}))
+    text = lambda k: ("BT /F1 12 Tf 20 200 Td (Page %d text) Tj /F2 10 Tf <0001000200100011> Tj ET q 1 0 0 1 10 10 cm /Fm1 Do Q" % k).encode()
+    s4 = {
+        1: {"Type": Name("Catalog"), "Pages": Ref(2)},
+        2: {"Type": Name("Pages"), "Kids": [Ref(30), Ref(31), Ref(32), Ref(33)], "Count": 4},
+        30: page(0), 31: page(1), 32: page(2), 33: page(3),
+        10: Stream({"Filter": Name("LZWDecode")}, lzw_encode(text(0))),
+        11: Stream({"Filter": Name("RunLengthDecode")}, rl_encode(text(1))),
+        12: Stream({"Filter": Name("ASCII85Decode")}, a85_encode(text(2))),
+        13: Stream({"Filter": [Name("ASCII85Decode"), Name("LZWDecode")]}, a85_encode(lzw_encode(text(3)))),
+        5: {"Type": Name("Font"), "Subtype": Name("Type1"), "BaseFont": Name("Helvetica")},
+        6: {"Type": Name("Font"), "Subtype": Name("Type0"), "BaseFont": Name("Comp"), "Encoding": Name("Identity-H"), "DescendantFonts": [Ref(7)], "ToUnicode": Ref(9)},
+        7: {"Type": Name("Font"), "Subtype": Name("CIDFontType2"), "BaseFont": Name("Comp"), "CIDSystemInfo": {"Registry": "Adobe", "Ordering": "Identity", "Supplement": 0},
+            "FontDescriptor": Ref(8), "DW": 600},
+        8: FD,
+        9: Stream({"Filter": Name("LZWDecode")}, lzw_encode(tou)),
+        20: Stream({"Type": Name("XObject"), "Subtype": Name("Form"), "BBox": [0, 0, 50, 50], "Resources": {"Font": {"F1": Ref(5)}}, "Filter": Name("RunLengthDecode")},
+                   rl_encode(b"BT /F1 8 Tf (in form) Tj ET")),
+    }
+    models["filtered-contents"] = dict(objs=s4, root=1, form="table", pack=())
+    # -- S5..S7: encrypted documents that open with the empty user password (RC4-128 revision 3, AES-128 revision 4, AES-256 revision 6): every entry of the
+    #    encryption dictionary is a fault site, and so are the encrypted payloads
+    from specs import pdfcrypt as PC
+    docid = b"0123456789abcdef"
+    for nm_, h in (("encrypted-rc4", PC.Legacy(3, 128, b"", b"owner", 0xFFFFFFFC, docid)), ("encrypted-aes128", PC.Legacy(4, 128, b"", b"owner", 0xFFFFFFFC, docid, aes=True)),
+                   ("encrypted-aes256", PC.V5(6, b"", b"owner", 0xFFFFFFFC, seed=b"c13"))):
+        content = b"BT /F1 12 Tf 20 200 Td (Secret text) Tj ET"
+        e = {
+            1: {"Type": Name("Catalog"), "Pages": Ref(2)},
+            2: {"Type": Name("Pages"), "Kids": [Ref(3)], "Count": 1},
+            3: {"Type": Name("Page"), "Parent": Ref(2), "MediaBox": [0, 0, 300, 300], "Contents": Ref(4), "Resources": {"Font": {"F1": Ref(5)}}},
+            4: Stream({}, h.encrypt(4, 0, content)),
+            5: {"Type": Name("Font"), "Subtype": Name("Type1"), "BaseFont": Name("Helvetica")},
+            9: h.dict(),
+        }
+        models[nm_] = dict(objs=e, root=1, form="table", pack=(), extra_trailer={"Encrypt": Ref(9), "ID": [docid, docid]})
     return models
 
 
 def write_model(m, objs=None):
     from specs.pdfrev import Writer
     w = Writer()
-    w.revision(objs if objs is not None else m["objs"], m["root"], form=m["form"], pack=m["pack"])
+    w.revision(objs if objs is not None else m["objs"], m["root"], form=m["form"], pack=m["pack"], extra_trailer=m.get("extra_trailer"))
     return w.out.getvalue()
 
 
@@ -136,8 +174,19 @@ def apply_fault(objs, num, path, kind, value):
             parent, key, cur = cur, p, cur[p]
     if key == "<data>":
         d = parent.data
-        parent.data = {"data-truncate": d[:len(d) // 2], "data-corrupt": bytes((b ^ 0x55) if i % 3 == 1 else b for i, b in enumerate(d)), "data-empty": b""}[kind]
-        if kind != "data-corrupt":
+        import random as _random
+        g = _random.Random(num * 7919 + len(d))
+        variants = {
+            "data-truncate": d[:len(d) // 2], "data-truncate-quarter": d[:len(d) // 4], "data-truncate-last-byte": d[:-1], "data-truncate-to-one-byte": d[:1],
+            "data-truncate-three-quarters": d[:3 * len(d) // 4],
+            "data-corrupt": bytes((b ^ 0x55) if i % 3 == 1 else b for i, b in enumerate(d)),
+            "data-corrupt-first-byte": bytes((d[0] ^ 0xFF,)) + d[1:] if d else d, "data-corrupt-last-byte": d[:-1] + bytes((d[-1] ^ 0xFF,)) if d else d,
+            "data-corrupt-middle-byte": d[:len(d) // 2] + bytes((d[len(d) // 2] ^ 0x81,)) + d[len(d) // 2 + 1:] if d else d,
+            "data-garbage": bytes(g.randrange(256) for _ in range(len(d))), "data-garbage-2": bytes(g.randrange(256) for _ in range(max(1, len(d) // 3))),
+            "data-all-ff": b"\xff" * len(d), "data-all-zero": b"\x00" * len(d),
+            "data-empty": b""}
+        parent.data = variants[kind]
+        if kind.startswith("data-truncate") or kind == "data-empty" or kind == "data-garbage-2":
             parent.d.pop("Length", None)
         return o
     if len(path) == 0:
@@ -156,6 +205,10 @@ def apply_fault(objs, num, path, kind, value):
     else:
         container[path[-1]] = value
     return o
+
+
+DATA_FAULTS = ("data-truncate", "data-truncate-quarter", "data-truncate-last-byte", "data-truncate-to-one-byte", "data-truncate-three-quarters", "data-corrupt",
+               "data-corrupt-first-byte", "data-corrupt-last-byte", "data-corrupt-middle-byte", "data-garbage", "data-garbage-2", "data-all-ff", "data-all-zero", "data-empty")
 
 
 def family(e):
@@ -234,8 +287,10 @@ def _(tier, seed):
     seen_loc = set()
     cases, trunc = [], []
     hangs = 0
+    bases, unchanged = {}, 0
     for nm, m in models.items():
         base = write_model(m)
+        bases[nm] = base
         r = run_entry_points(base)
         evals += 1
         if r is not None:
@@ -243,7 +298,7 @@ def _(tier, seed):
             return dict(evaluations=evals, distinct=0, failures=failures)
         for num, path in sites(m["objs"]):
             if path and path[-1] == "<data>":
-                for k in ("data-truncate", "data-corrupt", "data-empty"):
+                for k in DATA_FAULTS:
                     cases.append((nm, num, path, k, None, None))
             else:
                 for vn, v in fault_values(num):
@@ -281,8 +336,16 @@ def _(tier, seed):
             desc = "file truncated to %d bytes" % vn
         else:
             try:
-                data = write_model(m, apply_fault(m["objs"], num, path, kind, v))
+                faulted = apply_fault(m["objs"], num, path, kind, v)
+                if faulted is None:
+                    raise AssertionError("harness: apply_fault produced nothing for %r" % ((nm, num, path, kind, vn),))
+                data = write_model(m, faulted)
+            except AssertionError:
+                raise
             except Exception as e:  # the writer itself cannot express this fault (e.g. a non-stream where it packs streams)
+                continue
+            if data == bases[nm]:
+                unchanged += 1          # the fault did not change the file (e.g. a value replaced by an equal one); counted, must stay rare
                 continue
             desc = "object %d %s: %s%s" % (num, "/".join(map(str, path)), kind, "" if vn is None else " by " + vn)
         evals += 1
@@ -297,7 +360,9 @@ def _(tier, seed):
                 failures.append(dict(document=nm, fault=desc, entry_point=r[0], error=r[1], where=r[2], pdf=data.hex() if len(data) < 6000 else None))
             if hangs >= 3:
                 break                          # every further hang costs the full alarm: three are enough to report
-    return dict(evaluations=evals, distinct=len(kinds), failures=failures, leaking_sites=len(seen_loc))
+    if unchanged * 20 > max(1, evals):
+        failures.append(dict(harness="vacuity guard: %d of %d faults left the file unchanged" % (unchanged, evals + unchanged)))
+    return dict(evaluations=evals, distinct=len(kinds), failures=failures, leaking_sites=len(seen_loc), faults_without_effect=unchanged)
 
 
 # =====================================================================================================================================
